@@ -78,9 +78,12 @@ theorem idealRead_closed (B : Nat) (hB : 0 < B) (data : Bytes) : ∀ (fuel : Nat
         refine ⟨t', ?_, ?_, hi'⟩
         · rw [hadv, h', hpos.1, slice_take _ _ _ _ hd1.2.1, List.append_assoc, slice_append _ _ _ _ hd1.2.2]
         · rw [hp', hpos.1]; omega
+/-- status of skipping `size` bytes when `left` bytes are left: running into the end of the data is an error -/
+def skipRc (size left : Nat) : Err := if size ≤ left then .ok else .oob
+
 theorem idealSkip_closed (B : Nat) (hB : 0 < B) (data : Bytes) : ∀ (fuel : Nat) (t : Ideal) (size : Nat) (os : OS),
     Iv data t → size < fuel →
-    ∃ t', istreamSkipLoop (idealStream B data) fuel t size os = (.ok, t', os) ∧
+    ∃ t', istreamSkipLoop (idealStream B data) fuel t size os = (skipRc size (data.length - t.pos), t', os) ∧
       t'.pos = t.pos + min size (data.length - t.pos) ∧ Iv data t' := by
   intro fuel
   induction fuel with
@@ -89,7 +92,7 @@ theorem idealSkip_closed (B : Nat) (hB : 0 < B) (data : Bytes) : ∀ (fuel : Nat
     intro t size os hi hf
     unfold istreamSkipLoop
     by_cases h0 : size = 0
-    · subst h0; exact ⟨t, by simp, by simp, hi⟩
+    · subst h0; exact ⟨t, by simp [skipRc], by simp, hi⟩
     · simp only [h0, if_false]
       obtain ⟨a, hg, ha1, ha2, ha3, _⟩ := idealGet_facts B hB data t size os hi
       have hg' : (idealStream B data).get t size os = idealGet B data t size os := rfl
@@ -98,7 +101,9 @@ theorem idealSkip_closed (B : Nat) (hB : 0 < B) (data : Bytes) : ∀ (fuel : Nat
       · subst hz
         simp only [if_true]
         have hp := ha2 rfl
-        exact ⟨⟨t.pos, 0⟩, rfl, by simp; omega, by simp [Iv]; omega⟩
+        have hrc : skipRc size (data.length - t.pos) = .oob := by
+          simp only [skipRc]; rw [if_neg]; omega
+        exact ⟨⟨t.pos, 0⟩, by rw [hrc], by simp; omega, by simp [Iv]; omega⟩
       · simp only [hz, if_false]
         have hl : (slice data t.pos a).length = a := slice_length data t.pos a ha1
         simp only [hl]
@@ -114,7 +119,12 @@ theorem idealSkip_closed (B : Nat) (hB : 0 < B) (data : Bytes) : ∀ (fuel : Nat
           · dsimp only; omega
         obtain ⟨t', h', hp', hi'⟩ := ih (idealAdv ⟨t.pos, a⟩ diff) (size - diff) os hpos.2 (by omega)
         refine ⟨t', ?_, ?_, hi'⟩
-        · rw [hadv, h']
+        · rw [hadv, h', hpos.1]
+          have : skipRc (size - diff) (data.length - (t.pos + diff)) = skipRc size (data.length - t.pos) := by
+            simp only [skipRc]
+            have : (size - diff ≤ data.length - (t.pos + diff)) ↔ (size ≤ data.length - t.pos) := by omega
+            simp only [this]
+          rw [this]
         · rw [hp', hpos.1]; omega
 
 theorem appendRes_nosparse (o : OStream) (d : Bytes) (ho : o.sparse = 0) (hk : o.skew = 0) (hd : d.length ≠ 0) :
@@ -189,7 +199,9 @@ def recordEnd (len pos size : Nat) : Nat :=
 
 theorem idealRecord_closed (B : Nat) (hB : 0 < B) (data : Bytes) (t : Ideal) (size : Nat) (os : OS) (hi : Iv data t) :
     (recordToMemory (idealStream B data) t size os).1 =
-      (if t.pos + size ≤ data.length ∧ size ≤ 0x7FFFFFFF then some (slice data t.pos size) else none) ∧
+      (if t.pos + size ≤ data.length ∧ size ≤ 0x7FFFFFFF ∧
+          (size % 512 = 0 ∨ t.pos + size + (512 - size % 512) ≤ data.length)
+        then some (slice data t.pos size) else none) ∧
     (recordToMemory (idealStream B data) t size os).2.2 = os ∧
     Iv data (recordToMemory (idealStream B data) t size os).2.1 ∧
     (recordToMemory (idealStream B data) t size os).2.1.pos = recordEnd data.length t.pos size := by
@@ -209,7 +221,9 @@ theorem idealRecord_closed (B : Nat) (hB : 0 < B) (data : Bytes) (t : Ideal) (si
     have hneg : ¬ (t.pos + size ≤ data.length ∧ size ≤ 0x7FFFFFFF) := by
       intro ⟨h1, h2⟩
       omega
-    refine ⟨by rw [if_neg hneg], trivial, hi1, ?_⟩
+    have hneg' : ¬ (t.pos + size ≤ data.length ∧ size ≤ 0x7FFFFFFF ∧
+        (size % 512 = 0 ∨ t.pos + size + (512 - size % 512) ≤ data.length)) := fun h => hneg ⟨h.1, h.2.1⟩
+    refine ⟨by rw [if_neg hneg'], trivial, hi1, ?_⟩
     simp only [recordEnd, if_neg hneg, hp1, hszm]
   · simp only [hd, if_false]
     have hsz' : sz = size := by
@@ -223,17 +237,32 @@ theorem idealRecord_closed (B : Nat) (hB : 0 < B) (data : Bytes) (t : Ideal) (si
       · by_cases h : sz > 0x7FFFFFFF
         · simp only [h, if_true] at hsz; omega
         · omega
-    rw [if_pos hcond]
     have hp1' : t1.pos = t.pos + sz := by rw [hp1]; omega
     by_cases hp : sz % 512 ≠ 0
     · simp only [if_pos hp]
       unfold istreamSkip
       obtain ⟨t2, h2, hp2, hi2⟩ := idealSkip_closed B hB data (512 - sz % 512 + 1) t1 (512 - sz % 512) os hi1 (by omega)
       rw [h2]
-      refine ⟨rfl, rfl, hi2, ?_⟩
-      simp only [recordEnd, if_pos hcond, if_pos hp, hp2, hp1']
+      by_cases hfit : t.pos + sz + (512 - sz % 512) ≤ data.length
+      · have hrc : skipRc (512 - sz % 512) (data.length - t1.pos) = .ok := by
+          simp only [skipRc]; rw [if_pos]; omega
+        rw [hrc]
+        refine ⟨by rw [if_pos ⟨hcond.1, hcond.2, Or.inr hfit⟩], rfl, hi2, ?_⟩
+        simp only [recordEnd, if_pos hcond, if_pos hp, hp2, hp1']
+      · have hrc : skipRc (512 - sz % 512) (data.length - t1.pos) = .oob := by
+          simp only [skipRc]; rw [if_neg]; omega
+        rw [hrc]
+        have hneg : ¬ (t.pos + sz ≤ data.length ∧ sz ≤ 0x7FFFFFFF ∧
+            (sz % 512 = 0 ∨ t.pos + sz + (512 - sz % 512) ≤ data.length)) := by
+          intro ⟨_, _, h3⟩
+          rcases h3 with h3 | h3
+          · exact hp h3
+          · exact hfit h3
+        refine ⟨by rw [if_neg hneg], rfl, hi2, ?_⟩
+        simp only [recordEnd, if_pos hcond, if_pos hp, hp2, hp1']
     · simp only [if_neg hp]
-      refine ⟨trivial, trivial, hi1, ?_⟩
+      have hp' : sz % 512 = 0 := by omega
+      refine ⟨by rw [if_pos ⟨hcond.1, hcond.2, Or.inl hp'⟩], trivial, hi1, ?_⟩
       simp only [recordEnd, if_pos hcond, if_neg hp, hp1']
 
 theorem findNl_le (w : Bytes) : findNl w ≤ w.length := by
